@@ -88,7 +88,7 @@ def entry_state(ex, con, fs):
     return st
 
 
-def verify_function(ident, registry=None, keep_models=True, vc_timeout=None):
+def verify_function(ident, registry=None, keep_models=True, vc_timeout=None, case=None):
     reg = registry if registry is not None else api.REGISTRY
     con = reg[ident]
     res = FuncResult(ident)
@@ -110,56 +110,59 @@ def verify_function(ident, registry=None, keep_models=True, vc_timeout=None):
         # requires
         for cl in con.requires:
             st = st.assume(ex.spec_eval(cl, st))
-        for name, expr in con.ghost.items():
-            tree = ast.parse(expr.strip(), mode='eval').body
-            ex.spec += 1
-            try:
-                gv = ex.ev1(tree, st)
-            finally:
-                ex.spec -= 1
-            st = st.bind(name, gv)
+        # pure abstract callees given as uninterpreted functions: their contract is an axiom about the function symbol
+        for txt, cs in con.callees.items():
+            if cs.get('fn') and cs.get('pure'):
+                st = st.assume(*callee_fn_axioms(ex, st, cs))
         st = st.clone(old_heap=st.heap, old_env=dict(st.env))
-        entry = st
         # vacuity guard: the precondition must be satisfiable
-        chk = st.check()
         ex.vcs.append(VC('requires is satisfiable (vacuity guard)', 'cover', list(st.pc), None, clause='requires'))
         for kk, cv in enumerate(con.covers):
             ex.vcs.append(VC('cover[%d] reachable' % kk, 'cover', list(st.pc) + [ex.spec_eval(cv, st)], None, clause=cv))
-        fr = ex.push_frame(**{'return': True, 'raise': True})
-        normal = ex.ex(fs.body(), st)
-        ex.pop_frame()
-        returns = [(s, Z.NONE) for s in normal] + fr['return']
-        raises = fr['raise']
-        res.paths = len(returns) + len(raises)
-        # postconditions
-        for pi, (s, rv) in enumerate(returns):
-            ex.path_counter = 1000 + pi
-            s = LEM.apply(ex, con, s)
-            for kk, cl in enumerate(con.ensures):
-                phi = ex.spec_eval(cl, s, result=rv, old=(entry.heap, entry.env))
-                ex.add_vc('ensures', 'ensures[%d]' % kk, s, phi, clause=cl)
-            add_frame_vc(ex, con, entry, s, 'return')
-        for pi, (s, e) in enumerate(raises):
-            ex.path_counter = 2000 + pi
-            s = LEM.apply(ex, con, s)
-            c = s.heap.class_of(Z.addr(e))
-            alts = []
-            for cls, cond in con.exsures.items():
-                for nm in [x.strip() for x in cls.split(',')]:
-                    base = 'Exception' if nm == '*' else nm
-                    conds = cond if isinstance(cond, (list, tuple)) else [cond]
-                    s_m = s.with_meta(raised_exc=e)
-                    parts = [ex.is_sub(c, base)]
-                    for cd in conds:
-                        if cd and cd != 'True':
-                            parts.append(ex.spec_eval(cd, s_m, env=dict(entry.env, **{'exc': e}), old=(entry.heap, entry.env)))
-                    alts.append(z3.And(parts))
-            goal = z3.Or(alts) if alts else z3.BoolVal(False)
-            why = '; '.join(s.notes[-2:])
-            ex.add_vc('exsures', 'exsures (every escaping exception is declared)', s, goal,
-                      clause=str(dict(con.exsures)) + ' <- ' + why, note=why)
-            if con.exsures:
-                add_frame_vc(ex, con, entry, s, 'raise')
+        cases = [(None, st)]
+        if con.split:
+            conds = [ex.spec_eval(c, st) for c in con.split]
+            ex.add_vc('callee-pre', 'split cases cover the precondition', st, z3.Or(conds), clause=' | '.join(con.split))
+            cases = [(c, st.assume(phi)) for c, phi in zip(con.split, conds)]
+            if case is not None:
+                # one split case per job (the runner distributes them over processes); the coverage obligation
+                # and the vacuity guards are emitted with case 0 only
+                if case != 0:
+                    ex.vcs = []
+                cases = cases[case:case + 1]
+        res.paths = 0
+        for ci, (cname, st_c) in enumerate(cases):
+            # constructor-narrow the parameters: tags fixed by the precondition become syntactic
+            env = dict(st_c.env)
+            for k, v in list(env.items()):
+                if z3.is_expr(v) and v.sort() == Val:
+                    env[k] = ex.narrow(st_c, v)
+                    if z3.is_true(z3.simplify(Z.is_r(env[k]))) and st_c.implies(z3.IsInt(Z.rv(env[k]))):
+                        # an integer-valued float: name its integer, so that to_int/to_real round trips simplify away
+                        kint = Z.fresh_int(k + '_int')
+                        st_c = st_c.assume(z3.ToReal(kint) == Z.rv(env[k]))
+                        env[k] = Z.mk_r(z3.ToReal(kint))
+                    if con.split and z3.is_true(z3.simplify(Z.is_i(env[k]))):
+                        # value narrowing for small enumerations named by the split (even_odd in {0,1,2} ...)
+                        for lit in (0, 1, 2):
+                            if st_c.implies(Z.iv(env[k]) == lit):
+                                env[k] = Z.mk_i(lit)
+                                break
+            st_c = st_c.clone(env=env)
+            # ghost names (evaluated once, after narrowing, so the clauses stay small)
+            for name, expr in con.ghost.items():
+                tree = ast.parse(expr.strip(), mode='eval').body
+                ex.spec += 1
+                try:
+                    gv = ex.ev1(tree, st_c)
+                finally:
+                    ex.spec -= 1
+                if z3.is_expr(gv) and gv.sort() == Val:
+                    gv = z3.simplify(gv)
+                st_c = st_c.bind(name, gv)
+            env = dict(st_c.env)
+            entry = st_c.clone(old_heap=st_c.heap, old_env=dict(env))
+            run_case(ex, con, fs, entry, res, 10000 * ci)
         for sig in con.loops:
             if sig not in ex.loop_seen:
                 # an invariant whose loop no longer exists: orphaned -> undecided, not a violation
@@ -179,6 +182,66 @@ def verify_function(ident, registry=None, keep_models=True, vc_timeout=None):
     discharge(ex, res, keep_models, vc_timeout or con.timeout or VC_TIMEOUT_MS)
     res.time = time.time() - t0
     return res
+
+
+def run_case(ex, con, fs, entry, res, base):
+    """execute the body from `entry` and emit the exit obligations"""
+    st = entry
+    fr = ex.push_frame(**{'return': True, 'raise': True})
+    try:
+        normal = ex.ex(fs.body(), st)
+    finally:
+        ex.pop_frame()
+    returns = [(s, Z.NONE) for s in normal] + fr['return']
+    raises = fr['raise']
+    res.paths += len(returns) + len(raises)
+    for pi, (s, rv) in enumerate(returns):
+        ex.path_counter = base + 1000 + pi
+        ex.sum_terms = []
+        goals = [(kk, cl, ex.spec_eval(cl, s, result=rv, old=(entry.heap, entry.env))) for kk, cl in enumerate(con.ensures)]
+        ex.sum_terms = list(s.meta.get('sums', [])) + ex.sum_terms     # sums of this path + sums named in the clauses
+        s = LEM.apply(ex, con, s)       # after the clauses are translated: lemmas see the terms of both sides
+        for kk, cl, phi in goals:
+            ex.add_vc('ensures', 'ensures[%d]' % kk, s, phi, clause=cl)
+        add_frame_vc(ex, con, entry, s, 'return')
+    for pi, (s, e) in enumerate(raises):
+        ex.path_counter = base + 2000 + pi
+        s = LEM.apply(ex, con, s)
+        c = s.heap.class_of(Z.addr(e))
+        alts = []
+        for cls, cond in con.exsures.items():
+            for nm in [x.strip() for x in cls.split(',')]:
+                basec = 'Exception' if nm == '*' else nm
+                conds = cond if isinstance(cond, (list, tuple)) else [cond]
+                s_m = s.with_meta(raised_exc=e)
+                parts = [ex.is_sub(c, basec)]
+                for cd in conds:
+                    if cd and cd != 'True':
+                        parts.append(ex.spec_eval(cd, s_m, env=dict(entry.env, **{'exc': e}), old=(entry.heap, entry.env)))
+                alts.append(z3.And(parts))
+        goal = z3.Or(alts) if alts else z3.BoolVal(False)
+        why = '; '.join(s.notes[-2:])
+        ex.add_vc('exsures', 'exsures (every escaping exception is declared)', s, goal,
+                  clause=str(dict(con.exsures)) + ' <- ' + why, note=why)
+        if con.exsures:
+            add_frame_vc(ex, con, entry, s, 'raise')
+
+
+def callee_fn_axioms(ex, st, cs):
+    """forall args. requires(args) => ensures(args, F(args)) for a pure callee modelled by the function symbol F"""
+    params = cs.get('params') or []
+    bound = [z3.Const('ax!' + p, Val) for p in params]
+    f = z3.Function(cs['fn'], *([Val] * len(bound) + [Val]))
+    app = f(*bound) if bound else z3.Const(cs['fn'], Val)
+    env = dict(zip(params, bound))
+    if 'self' in st.env:
+        env['self'] = st.env['self']
+    pre = [ex.spec_eval(cl, st, env=env) for cl in cs.get('requires', [])]
+    post = [ex.spec_eval(cl, st, env=env, result=app, old=(st.heap, env)) for cl in cs.get('ensures', [])]
+    if not post:
+        return []
+    body = z3.Implies(z3.And(pre) if pre else z3.BoolVal(True), z3.And(post))
+    return [Z.forall(bound, body, patterns=[app], qid='callee_' + cs['fn'])] if bound else [body]
 
 
 def add_frame_vc(ex, con, entry, s, how):
